@@ -3,6 +3,8 @@ pub mod fw;
 pub mod snap;
 pub mod oracle {
     pub mod eval;
+    pub mod f2;
+    pub mod f2small;
     pub mod ring;
     pub mod sim;
 }
@@ -10,6 +12,7 @@ pub mod gen {
     pub mod circuit;
     pub mod diagram;
     pub mod prng;
+    pub mod tdiag;
 }
 pub mod mon;
 
